@@ -365,7 +365,7 @@ def lex_segments(segs):
     # merge glued ident/num/ph runs into mixed tokens
     out = []
     for t_ in toks:
-        if out and t_.glue_prev and t_.k in ("ident", "ph", "num") and out[-1].k in ("ident", "ph", "mixed", "num") and not (out[-1].k == "num" and t_.k == "num"):
+        if out and t_.glue_prev and t_.k in ("ident", "ph", "num") and out[-1].k in ("ident", "ph", "mixed", "num") and not (out[-1].k == "num" and t_.k == "num") and not (t_.k == "ident" and t_.s in RUST_KEYWORDS) and not (out[-1].k == "ident" and out[-1].s in RUST_KEYWORDS):
             prev = out[-1]
             if prev.k != "mixed":
                 parts = [prev]
